@@ -810,7 +810,7 @@ func run(c *vh.Ctx) error {
 			res.Fail("corpus", "", "corpus witness fails again: "+f+": "+what, f)
 		}
 	}
-	nCases := c.N(2500, 60000)
+	nCases := c.N(6000, 60000)
 	if c.Search {
 		nCases *= 3
 	}
